@@ -7,6 +7,7 @@ CONSTANTS
   Vals <- MCVals
   Res <- MCRes
   Bounds <- MCBounds
+  Scopes <- MCScopes
   MaxInst = @MAXINST@
   MaxRec = @MAXREC@
   MaxScr = @MAXSCR@
